@@ -267,6 +267,53 @@ def reach (decl : String → List String) : Nat → String → List String
   | 0, _ => []
   | fuel + 1, n => decl n ++ (decl n).flatMap (reach decl fuel)
 
+/-! ### a whole rule file without aliases: several rules, optional SUPERIORS sections -/
+
+/-- a rule as written: mandatory sections and the declared superiors -/
+structure RuleSrc where
+  name : String
+  category : String
+  cutoffKb : Nat
+  nbhKb : Nat
+  superiors : List String
+  conds : OrE
+
+def superiorsToks (l : List String) : List Tok :=
+  if l.isEmpty then [] else kw "SUPERIORS" .superiors :: ppIds l
+
+def ruleSrcToks (r : RuleSrc) : List Tok :=
+  [kw "RULE" .rule, tId r.name, kw "CATEGORY" .category, tId r.category] ++ superiorsToks r.superiors ++
+    [kw "CUTOFF" .cutoff, tInt r.cutoffKb, kw "NEIGHBOURHOOD" .neighbourhood, tInt r.nbhKb,
+     kw "CONDITIONS" .conditions] ++ ppOr r.conds
+
+/-- the declared superiors together with the superiors of each of them (rules stored before) -/
+def closeSup (earlier : List Rule) (decl : List String) : List String :=
+  if decl.isEmpty then [] else
+  sortDedupStr (decl ++ decl.flatMap fun n =>
+    match earlier.find? (·.name == n) with
+    | some p => p.superiors
+    | none => [])
+
+/-- the rule a written rule denotes, given the rules stored before it -/
+def denoteRule (cfg : Cfg) (earlier : List Rule) (r : RuleSrc) : Rule :=
+  { name := r.name, category := r.category, cutoff := distance r.cutoffKb cfg.cutoffMul,
+    neighbourhood := distance r.nbhKb cfg.nbhMul, conditions := shapeTop r.conds,
+    superiors := closeSup earlier r.superiors }
+
+def denote (cfg : Cfg) : List Rule → List RuleSrc → List Rule
+  | earlier, [] => earlier
+  | earlier, r :: rs => denote cfg (earlier ++ [denoteRule cfg earlier r]) rs
+
+/-- a legal written rule, given the rules stored before it -/
+def srcOk (cfg : Cfg) (earlier : List Rule) (r : RuleSrc) : Bool :=
+  cfg.cats.contains r.category && !earlier.any (·.name == r.name) && okTop r.conds && positive (shapeTop r.conds)
+    && (profilesL (shapeOr r.conds)).all (cfg.sigs.contains ·)
+    && !hasDupStr r.superiors && r.superiors.all fun n => earlier.any (·.name == n)
+
+def srcsOk (cfg : Cfg) : List Rule → List RuleSrc → Bool
+  | _, [] => true
+  | earlier, r :: rs => srcOk cfg earlier r && srcsOk cfg (earlier ++ [denoteRule cfg earlier r]) rs
+
 /-! ### what an accepted rule set must look like ("ill-formed input is rejected") -/
 
 mutual
